@@ -108,3 +108,17 @@ VARIANTS += [
  V("c10-e1-drop-manifest-sync-error", "C10", "C10.E1", "version_set.go",
    '		if err := vs.manifestFile.Sync(); err != nil {\n			return errors.Wrap(err, "MANIFEST sync failed")\n		}\n		if newManifestFileNum != 0 {', '		_ = vs.manifestFile.Sync()\n		if newManifestFileNum != 0 {'),
 ]
+
+VARIANTS += [
+ V("c12-o1-truncate-queue-on-error", "C12", "C12.O1", "compaction.go",
+   "	var flushed flushableList\n	if err == nil {\n		flushed = d.mu.mem.queue[:n]", "	var flushed flushableList\n	if err == nil || ingest {\n		flushed = d.mu.mem.queue[:n]"),
+ V("c12-o2-capture-after-rotation", "C12", "C12.O2", "db.go",
+   "	flushed := d.mu.mem.queue[len(d.mu.mem.queue)-1].flushed\n	err := d.makeRoomForWrite(nil)\n	if err != nil {\n		return nil, err\n	}",
+   "	err := d.makeRoomForWrite(nil)\n	if err != nil {\n		return nil, err\n	}\n	flushed := d.mu.mem.queue[len(d.mu.mem.queue)-1].flushed"),
+ V("c12-o2-flush-does-not-wait", "C12", "C12.O2", "db.go",
+   "	<-flushDone\n	return nil\n}", "	_ = flushDone\n	return nil\n}"),
+ V("c12-o3-close-before-sync", "C12", "C12.O3", "record/log_writer.go",
+   "	if err == nil && w.s != nil {\n		syncLatency, err = w.syncWithLatency()\n	}\n	f.Lock()", "	if err == nil && w.s != nil && lastQueuedRecord.Index != NoSyncIndex {\n		syncLatency, err = w.syncWithLatency()\n	}\n	f.Lock()"),
+ V("c12-v1-watermark-after-sync", "C12", "C12.V1", "objstorage/objstorageprovider/vfs.go",
+   "			p.mu.local.hotTier.objChangeCounterLastSync = hot.objChangeCounter", "			p.mu.local.hotTier.objChangeCounterLastSync = p.mu.local.hotTier.objChangeCounter"),
+]
